@@ -21,7 +21,7 @@ from __future__ import annotations
 import ast
 from typing import Any
 
-from ..absexec import AbsExec, Internal, MObj, Opaque, Raised, Tok, Unknown, _Return, split_token_loop
+from ..absexec import AbsExec, Closure, Internal, MObj, Opaque, Raised, Tok, Unknown, _Return, split_token_loop
 from ..pm import AnalysisError
 from ..report import Check
 
@@ -67,6 +67,8 @@ def key_of(v: Any, memo: dict | None = None) -> Any:
         return tuple(key_of(x) for x in v)
     if isinstance(v, (Opaque,)) or callable(v):
         return "~"
+    if isinstance(v, Closure):
+        return ("closure", id(v.node))  # a local function is the same function in every configuration
     return v
 
 
@@ -92,6 +94,15 @@ def snapshot(v: Any, memo: dict) -> Any:
     if isinstance(v, set):
         return set(v)
     return v
+
+
+def rebind_closures(env: dict) -> dict:
+    """Local functions of the loader (a `transition(state, token)` helper) close over the loader's variables: in a copy of the environment they must
+    close over the copy."""
+    for k, v in list(env.items()):
+        if isinstance(v, Closure):
+            env[k] = Closure(v.node, env)
+    return env
 
 
 def loader(check: Check, qual: str, rule: str = "LD") -> None:
@@ -245,7 +256,7 @@ def loader(check: Check, qual: str, rule: str = "LD") -> None:
             base_env = envs[ck]
             where = "after " + (" ".join(describe(t) for t in trace) if trace else "no token")
             # end of input here
-            env = snapshot(dict(base_env), {})
+            env = rebind_closures(snapshot(dict(base_env), {}))
             so = MObj(selfobj.cls, dict(snapshot(selfobj.fields, {})))
             env[params[0]] = so
             marker = MObj("Leaf", {"n": "collected-so-far"})
@@ -286,7 +297,7 @@ def loader(check: Check, qual: str, rule: str = "LD") -> None:
                 continue
             for tok in w.tokens:
                 n_steps += 1
-                env = snapshot(dict(base_env), {})
+                env = rebind_closures(snapshot(dict(base_env), {}))
                 env[params[0]] = MObj(selfobj.cls, dict(snapshot(selfobj.fields, {})))
                 before_stacks = [list(s_) for s_ in stacks(env)]
                 props_before = {k: env.get(k) for k in state_names if isinstance(env.get(k), MObj) and env[k].cls == "Proposition"}
